@@ -2,6 +2,7 @@
  * set metatype data.
  */
 
+#include <ctype.h>
 #include <string.h>
 
 #include <sys/uio.h>
@@ -65,7 +66,22 @@ static int iterConv(MPT_INTERFACE(convertable) *conv, MPT_TYPE(type) type, void 
 		return 's';
 	}
 	if (it->val) {
-		int ret = mpt_convert_string(it->val, type, dest);
+		int ret;
+		/* the complete text must be the number */
+		if (type < 0x80 && strchr("bynqiuxtlfde", type)) {
+			const char *end;
+			if ((ret = mpt_convert_string(it->val, type, 0)) <= 0) {
+				return ret;
+			}
+			end = it->val + ret;
+			while (isspace(*end)) {
+				++end;
+			}
+			if (*end) {
+				return MPT_ERROR(BadValue);
+			}
+		}
+		ret = mpt_convert_string(it->val, type, dest);
 		/* error or no data (empty text): nothing was stored */
 		if (ret <= 0) {
 			return ret;
